@@ -366,3 +366,52 @@ def narrow_variable_shift(facts, fams=None):
         walk(fn["body"], v)
     out.append(ob("lint.narrow-shift", "all:shifts-scanned", "", "discharged", "%d shift expressions scanned" % n, ""))
     return out
+
+
+def moves_from_lvalue_operands(facts, drivers=None):
+    """a function template with a forwarding-reference operand (`FwdSketch&& a`) is instantiated both for rvalue and for lvalue
+    arguments; in the lvalue instantiation the parameter has type `X &`, and anything taken out of it must go through
+    conditional_forward / forward_begin, which copy in that case.  A plain std::move of the operand, of a member of it, or of the
+    loop variable of a range-for over it empties the CALLER's object (summaries of a sketch that was only read).  Checked on every
+    instantiation in the drivers, not only the first one per template."""
+    out = []
+    seen = set()
+    n = 0
+    for fn in facts.functions(drivers):
+        if fn.get("body") is None:
+            continue
+        # a forwarding reference deduced for an lvalue argument: the deduced template argument itself is `X &`
+        targs = set(fn.get("targs") or [])
+        lv = {p["d"]: p["n"] for p in fn["params"] if p["t"].rstrip().endswith("&") and not p["t"].rstrip().endswith("&&") and not p["t"].lstrip().startswith("const ") and p["t"] in targs}
+        if not lv:
+            continue
+        n += 1
+        derived = dict(lv)   # decl id -> operand name
+
+        def rooted(e):
+            r = []
+            walk(e, lambda x: r.append(x) if x.get("k") == "Ref" and x.get("d") in derived else None)
+            return r[0]["d"] if r else None
+
+        def v1(x):
+            if x.get("k") == "RangeFor":
+                o = rooted(x.get("range"))
+                var = x.get("var") or {}
+                if o is not None and var.get("d") is not None and not (var.get("t") or "").lstrip().startswith("const "):
+                    derived[var["d"]] = derived[o]
+        walk(fn["body"], v1)
+        idx = [0]
+
+        def v2(x):
+            if x.get("k") == "Call" and x.get("cname") == "move" and (x.get("callee") or "").startswith("std::move") and len(x.get("args", [])) == 1:
+                o = rooted(x["args"][0])
+                if o is not None:
+                    key = "%s:move-from-lvalue-operand#%d" % (short(fn["patq"]), idx[0])
+                    idx[0] += 1
+                    if (fn["pat"], key) in seen:
+                        return
+                    seen.add((fn["pat"], key))
+                    out.append(ob("lint.move-from-lvalue", key, x["loc"], "violated", "std::move(%s) in the instantiation of %s where `%s` is an lvalue reference (%s): the caller's object is emptied although it was passed to be read - its summaries no longer equal what was accumulated; forwarding has to go through conditional_forward<Fwd>()" % (txt(x["args"][0])[:40], fn["name"], derived[o], [p["t"][:60] for p in fn["params"] if p["d"] in lv][:1]), fn["qname"]))
+        walk(fn["body"], v2)
+    out.append(ob("lint.move-from-lvalue", "all:lvalue-instantiations", "", "discharged", "%d function instantiations with non-const lvalue-reference parameters scanned" % n, ""))
+    return out
